@@ -386,6 +386,8 @@ pub struct Outcome {
     pub file_node: Option<NodeId>,
     /// object removed / renamed by the op
     pub victim: Option<NodeId>,
+    /// paths (before the call) of open files with pending changes
+    pub flux_paths: Vec<Vec<Vec<u16>>>,
 }
 
 fn ancestors(m: &Model, n: NodeId, out: &mut Outcome) {
@@ -525,7 +527,8 @@ pub fn exec_step(w: &mut World, s: &mut Session, step: &Step) -> Result<(), Viol
     let now = w.clock.get();
     let step_no = w.step_no;
     let prop = w.prop.clone();
-    let mut out = Outcome { res: Ok(()), touch: vec![], touch_paths: vec![], is_file_op: false, mutating: false, file_node: None, victim };
+    let mut out = Outcome { res: Ok(()), touch: vec![], touch_paths: vec![], is_file_op: false, mutating: false, file_node: None, victim, flux_paths: vec![] };
+    out.flux_paths = s.files.iter().flatten().filter(|h| h.dirty).map(|h| w.model.path_of(h.node).iter().map(|x| x.encode_utf16().collect()).collect()).collect();
     let mut flux_file: Option<NodeId> = None;
 
     macro_rules! lib {
